@@ -11,7 +11,9 @@ if [ "${1:-}" = "--stored" ]; then
   done
   exit 0
 fi
-for d in /tmp/wt-C*/SEEDED/m*; do
-  p=$(echo "$d" | sed -E 's#/tmp/wt-(C[0-9]+)/.*#\1#'); m=$(basename "$d")
-  "$ROOT/tools/ingest_seeded.sh" "$p" "$d" "$p-$m" 2>&1 | tail -1
+# usage: seeded_all.sh [worktree-prefix [name-infix]]   e.g.  seeded_all.sh /tmp/w2- r2
+PFX="${1:-/tmp/wt-}"; INFIX="${2:-}"
+for d in "$PFX"C*/SEEDED/m*; do
+  p=$(echo "$d" | sed -E 's#.*-(C[0-9]+)/SEEDED/.*#\1#'); m=$(basename "$d")
+  "$ROOT/tools/ingest_seeded.sh" "$p" "$d" "$p-$INFIX$m" 2>&1 | tail -1
 done
